@@ -56,6 +56,15 @@ PROPS = {
         claim="Theorems for all pairs of texts and all flag combinations: matrix_eq_rec (every cell of the flat matrix, filled with the code's candidate order and first-minimum tie-breaking, equals the recursive reference recurrence osaR), distance_le_script + distance_attained (the value is the minimum cost over all edit scripts: Levenshtein without swaps, optimal string alignment with, whitespace never substituted/transposed under spaces_insert_delete_only), distance_eq_zero_iff, normalized_range (<= longer length without sid; two empty strings give 0), normalized_range_sid_partial + sid_counterexample (F12), prefix_min. operations(): modelled with tie-breaking and backtrace, compared exactly with the implementation (script equality) and checked by the oracle (apply script = b, length = distance, sorted); the script theorem itself is not yet proved (partial).",
         note="Backtrace/script correctness is covered by exact correspondence + oracle only (no theorem yet). Grapheme clusters come from the real CharString. f64 division compared against the exact rational with tolerance. F12 is an open known finding; D1 (NaN for two empty strings) was repaired by a fix: commit.",
     ),
+    "C16": dict(
+        anchors=[("src/windows.rs", r"pub fn windows<"), ("src/windows.rs", r"pub fn char\("), ("src/windows.rs", r"pub fn byte\("), ("src/windows.rs", r"fn count_until\("), ("src/unicode.rs", r"pub\(crate\) fn char_range_to_byte_range\(")],
+        rule="vectors of cluster byte lengths (1-4 byte characters, 5-9 byte grapheme clusters realised as base + combining marks) of length 0-30 x max 0-12 x context 0-5 (invalid max <= 2*ctx and too-wide characters included) x char/byte/full; thorough adds all length vectors of length <= 6 over {1,2,3,4} x 11 (max,ctx) pairs",
+        exhaustive={"thorough": "all cluster-length vectors of length <= 6 over {1,2,3,4} (5461) x 11 (max, ctx) pairs x {char, byte} + full"},
+        trusted=["CharString (cluster byte lengths) is supplied by the real code; the model works on the byte-length vector"],
+        min_nontrivial={"quick": 500, "thorough": 5000},
+        claim="Theorems for every non-empty cluster-length vector and every configuration: char_windows_ok (valid config => windows tile [0,n): first starts at 0, each starts where the previous ended, none empty, last ends at n; contexts contain their windows, lie in the text and span <= max characters), byte_windows_ok (valid config => either the too-wide error value or a tiling with contexts <= max bytes; no other outcome), byte_windows_fit (every character <= max-2*ctx bytes => success), invalid_cfg_err (max <= 2*ctx => error value for both kinds), tiles_bytes (byte ranges of a tiling chain from 0 to the total byte length, i.e. concatenate to the text), full_window_ok; termination is by well-founded recursion (no fuel), the no-progress branch of the char loop is proved unreachable (charLoop_ok). Exact correspondence incl. error kind through windows::windows; oracle checks tiling, limits, byte/char agreement and the reported context string on the implementation.",
+        note="The model works on the cluster byte-length vector (CharString trusted for segmentation); byte boundaries are prefix sums in the model and compared with the implementation's run-length based conversion on every request.",
+    ),
     "C18": dict(
         anchors=[("src/text.rs", r"pub fn match_words_with\("), ("src/edit.rs", r"pub fn edited_words\(")],
         rule="texts of 0-12 words over small vocabularies (repeats, case variants incl. final-sigma / dotted-I / sharp-s words), every ASCII whitespace separator, leading/trailing separators; ignore_case on/off; thorough adds all pairs of word sequences of length <= 4 over 4 words",
